@@ -622,3 +622,54 @@ def subst_binders(t, m):
     if k == "app":
         return rebuild_app(t[1], tuple(subst_binders(x, m) for x in t[2]))
     return tuple(subst_binders(x, m) if isinstance(x, tuple) else x for x in t)
+
+
+NARROW_INT_DTYPES = ("uint8", "int8", "uint16", "int16", "bool", "bool_")
+
+
+def indices_space(t):
+    """(D, M, dtype) when t is the dense-grid idiom  np.indices(D[, dtype=..]).reshape(len(D), -1).T + M : all offsets in the box D,
+    one per row, in row-major order (the same enumeration as itertools.product over arange(D[i])), translated by M; else None.
+    `dtype` is the short name of an explicit dtype of the offsets (they run up to D[i] - 1) or None."""
+    if not (isinstance(t, tuple) and t):
+        return None
+
+    def core(a):
+        if not (a[0] == "app" and a[1] == "transpose" and len(a[2]) == 1):
+            return None
+        r = a[2][0]
+        if not (r[0] == "app" and r[1] == "reshape" and len(r[2]) == 3 and r[2][2] == K(-1)):
+            return None
+        g, n = r[2][0], r[2][1]
+        if not (g[0] == "app" and g[1] == "np.indices" and g[2]):
+            return None
+        pos = [x for x in g[2] if x[0] != "kw"]
+        kws = {x[1]: x[2] for x in g[2] if x[0] == "kw"}
+        if len(pos) != 1 or set(kws) - {"dtype"}:
+            return None
+        d = pos[0]
+        def vec_atoms(x):
+            return {a for mono, _c in x[1] for a, _p in mono} if x[0] == "poly" else {x}
+        # the row count is len(D), or len of another pointwise ring expression over the same vectors (it has the same length)
+        if not (n[0] == "app" and n[1] == "len" and len(n[2]) == 1 and (n[2][0] == d or vec_atoms(n[2][0]) == vec_atoms(d))):
+            return None
+        dt = kws.get("dtype")
+        name = None
+        if dt is not None:
+            name = show(dt).replace(">", "").split(".")[-1].strip()
+        return d, name
+
+    c = core(t)
+    if c is not None:
+        return c[0], K(0), c[1]
+    if t[0] == "poly":
+        for mono, coef in t[1]:
+            if coef == 1 and len(mono) == 1 and mono[0][1] == 1:
+                c = core(mono[0][0])
+                if c is not None:
+                    rest = T_sub(t, mono[0][0])
+                    if any(x == mono[0][0] for x in subterms(rest)):
+                        return None
+                    return c[0], rest, c[1]
+    return None
+
